@@ -249,6 +249,59 @@ def pick_interval(rng, ts, te, bps, kind=None):
     return ts, te, "full"
 
 
+def crowd_list(rng, n_trains):
+    """W15: a crowd - well over a hundred trains, almost all with a single spike inside one narrow burst (every spike is
+    coincident with more than 127 / 255 others), a few with two or three spikes, a few empty.  Counts, sums and
+    multiplicities then exceed what an 8-bit accumulator holds; the trains are tiny, so the case stays cheap."""
+    ts, te = rng.choice([(0.0, 64.0), (-32.0, 32.0), (16.0, 80.0)])
+    centre = ts + 32.0
+    trains = []
+    for q in range(n_trains):
+        r = rng.random()
+        t = centre + (q - n_trains // 2) * 2.0 ** -10
+        if r < 0.03:
+            trains.append([])
+        elif r < 0.08:
+            trains.append(sorted({ts + 4.0, t}))
+        elif r < 0.12:
+            trains.append(sorted({t, te - 6.0 + (q % 4) * 0.5}))
+        elif r < 0.2:
+            trains.append([centre])              # the same instant in several trains
+        else:
+            trains.append([t])
+    rng.shuffle(trains)
+    return {"ts": ts, "te": te, "step": 2.0 ** -10, "dyadic": True, "trains": trains, "src": "W15"}
+
+
+def pick_interval_list(rng, ts, te, bps, nmin=2, nmax=4):
+    """a list of nmin..nmax disjoint (sometimes touching) windows with ends on breakpoints / half points / edges, listed in
+    time order or not; some windows may contain no event at all"""
+    cand = sorted(set(list(bps) + [ts, te]))
+    halves = [(cand[k] + cand[k + 1]) / 2 for k in range(len(cand) - 1)]
+    pts = sorted(set(cand + halves))
+    n = rng.randint(nmin, nmax)
+    if len(pts) < 2 * n:
+        # not enough distinct points: subdivide the recording evenly
+        pts = sorted(set(pts + [ts + (te - ts) * q / (4 * n) for q in range(4 * n + 1)]))
+    for _ in range(20):
+        cuts = sorted(rng.sample(pts, min(len(pts), 2 * n)))
+        wins = []
+        q = 0
+        while q + 1 < len(cuts):
+            a, b = cuts[q], cuts[q + 1]
+            if wins and rng.random() < 0.35:
+                a = wins[-1][1]               # touching the previous window
+            if b > a:
+                wins.append([a, b])
+            q += 2
+        if len(wins) >= nmin:
+            if rng.random() < 0.5:
+                rng.shuffle(wins)
+            return wins
+    h = (ts + te) / 2
+    return [[ts, h], [h, te]]
+
+
 # ----------------------------------------------------------------------------------------- coverage words
 def word_of(trains, ts, te):
     """interleaving word of a list of trains: merged distinct event times, each labelled with the set of owners,
@@ -286,6 +339,7 @@ def min_isi(trains, ts, te):
 
 # ----------------------------------------------------------------------------------------- W8 function histories
 VALS = [0.0, 1.0, -1.0, 0.5, -0.5, 2.25, 0.25, 0.75, 3.0, -2.0, 0.125]
+WILD = [4e15, -4e15, 1e17, 3e8, 0.25, 1.0, -0.75, 1e-12, 0.0]
 
 
 def func_setting(rng):
@@ -333,6 +387,10 @@ def pwc_func(rng, ts, te, grid, shared=None, int_valued=False, dyadic=True):
         x = _no_subnormal_gaps([ts] + inner + [te])
     if int_valued:
         y = [rng.randint(0, 5) for _ in range(len(x) - 1)]
+    elif rng.random() < 0.05:
+        # a large dynamic range inside one function (counts next to rates, an outlier piece): every piece of a sum is
+        # still the rounded sum of the operands' values on that piece
+        y = [rng.choice(WILD) for _ in range(len(x) - 1)]
     else:
         y = [rng.choice(VALS) if rng.random() < 0.8 else rng.uniform(-3, 3) for _ in range(len(x) - 1)]
     return {"x": x, "y": y}
